@@ -313,56 +313,56 @@ fn boundary_keys_v<V: Fv>(ctx: &Ctx, nkeys: usize, per_key: usize, rep: &mut Rep
 /// last time" by anything short of the whole encoding hands back the wrong key here.
 fn checksum_pairs_v<V: Fv>(ctx: &Ctx, nkeys: usize, npairs: usize, rep: &mut Report) {
     let (keys, _bad) = crate::pool::keys::<V>(ctx.seed, "c05-cks", nkeys);
-    let mut cands: Vec<(usize, Vec<u8>)> = vec![];
-    for (ki, k) in keys.iter().enumerate() {
-        let b0 = V::basis(&k.sk);
-        let g: Vec<i64> = b0[0].iter().map(|&x| x as i64).collect();
-        let f: Vec<i64> = b0[1].iter().map(|&x| -(x as i64)).collect();
-        let cg: Vec<i64> = b0[2].iter().map(|&x| x as i64).collect();
-        let cf: Vec<i64> = b0[3].iter().map(|&x| -(x as i64)).collect();
-        cands.push((ki, V::sk_to_bytes(&k.sk)));
-        for c in [1i64, -1, 2, -2] {
-            for j in 0..V::N {
-                let sf = shift(&f, j);
-                let sg = shift(&g, j);
-                let f2: Vec<i64> = (0..V::N).map(|i| cf[i] + c * sf[i]).collect();
-                let g2: Vec<i64> = (0..V::N).map(|i| cg[i] + c * sg[i]).collect();
-                if f2.iter().chain(g2.iter()).any(|x| x.abs() > 127) {
-                    continue;
-                }
-                cands.push((ki, spec::sk_encode(&f, &g, &f2)));
-            }
+    if keys.is_empty() {
+        return;
+    }
+    struct Base {
+        f: Vec<i64>,
+        g: Vec<i64>,
+        cf: Vec<i64>,
+        cg: Vec<i64>,
+    }
+    let bases: Vec<Base> = keys
+        .iter()
+        .map(|k| {
+            let b0 = V::basis(&k.sk);
+            Base { g: b0[0].iter().map(|&x| x as i64).collect(), f: b0[1].iter().map(|&x| -(x as i64)).collect(), cg: b0[2].iter().map(|&x| x as i64).collect(), cf: b0[3].iter().map(|&x| -(x as i64)).collect() }
+        })
+        .collect();
+    // candidate i: key i % nkeys with F' = F + c1 x^j1 f + c2 x^j2 f (G' accordingly), if in range
+    let ncand = ctx.sz(120_000, 800_000);
+    let gen = |i: usize| -> Option<Vec<u8>> {
+        let mut z = (i as u64).wrapping_mul(0x9E3779B97F4A7C15) ^ ctx.seed.wrapping_mul(0xD1B54A32D192ED03);
+        let mut next = || {
+            z ^= z >> 30;
+            z = z.wrapping_mul(0xBF58476D1CE4E5B9);
+            z ^= z >> 27;
+            z = z.wrapping_mul(0x94D049BB133111EB);
+            z ^= z >> 31;
+            z
+        };
+        let b = &bases[i % bases.len()];
+        let (c1, c2) = ((next() % 5) as i64 - 2, (next() % 5) as i64 - 2);
+        let (j1, j2) = ((next() as usize) % V::N, (next() as usize) % V::N);
+        let (sf1, sg1, sf2, sg2) = (shift(&b.f, j1), shift(&b.g, j1), shift(&b.f, j2), shift(&b.g, j2));
+        let f2: Vec<i64> = (0..V::N).map(|t| b.cf[t] + c1 * sf1[t] + c2 * sf2[t]).collect();
+        let g2: Vec<i64> = (0..V::N).map(|t| b.cg[t] + c1 * sg1[t] + c2 * sg2[t]).collect();
+        if f2.iter().chain(g2.iter()).any(|x| x.abs() > 127) {
+            return None;
         }
-    }
-    let cks = |b: &[u8]| (b.iter().map(|&x| x as u64).sum::<u64>(), b.iter().fold(0u8, |a, &x| a ^ x));
-    let mut by_sum: std::collections::HashMap<u64, Vec<usize>> = std::collections::HashMap::new();
-    for (i, (_, b)) in cands.iter().enumerate() {
-        by_sum.entry(cks(b).0).or_default().push(i);
-    }
-    // prefer pairs that also agree in xor, then pairs from different base keys
-    let mut pairs: Vec<(u32, usize, usize)> = vec![];
-    for v in by_sum.values() {
-        for a in 0..v.len().min(6) {
-            for b in a + 1..v.len().min(6) {
-                let (i, j) = (v[a], v[b]);
-                if cands[i].1 == cands[j].1 {
-                    continue;
-                }
-                let score = (cks(&cands[i].1).1 == cks(&cands[j].1).1) as u32 * 2 + (cands[i].0 != cands[j].0) as u32;
-                pairs.push((score, i, j));
-            }
-        }
-    }
-    pairs.sort_by(|a, b| b.0.cmp(&a.0).then(a.1.cmp(&b.1)).then(a.2.cmp(&b.2)));
-    // a mix: the best-scoring ones and some plain ones
-    let chosen: Vec<(u32, usize, usize)> = pairs.iter().take(npairs / 2).chain(pairs.iter().rev().take(npairs - npairs / 2)).cloned().collect();
+        Some(spec::sk_encode(&b.f, &b.g, &f2))
+    };
+    let found = crate::collide::pairs_streaming(ncand, gen, (npairs / 8).max(2));
+    let chosen: Vec<(&'static str, usize, usize)> = found.into_iter().take(npairs * 2).collect();
+    let cands = |i: usize| gen(i).unwrap();
     let r = par_for(chosen.len(), ncpu(), |pi, rep| {
-        let (score, i, j) = chosen[pi];
-        let (a, b) = (&cands[i].1, &cands[j].1);
+        let (fname, i, j) = chosen[pi];
+        let (ca, cb) = (cands(i), cands(j));
+        let (a, b) = (&ca, &cb);
         let mut bad = false;
         for (step, x) in [a, b, a, b, b, a].iter().enumerate() {
             rep.evaluations += 1;
-            let replay = json!({"variant": V::NAME, "sk": hex(x), "decoded_just_before": hex(if step == 0 { b } else { [a, b, a, b, b, a][step - 1] }), "boundary": "checksum-colliding pair"});
+            let replay = json!({"variant": V::NAME, "sk": hex(x), "decoded_just_before": hex(if step == 0 { b } else { [a, b, a, b, b, a][step - 1] }), "boundary": format!("fingerprint-colliding pair ({})", fname)});
             match monitored(|| V::sk_from_bytes(x).map(|k| (V::sk_to_bytes(&k), V::basis(&k)))) {
                 Err(p) => {
                     rep.violation(&format!("panic:sk_from_bytes@{}", short_loc(&p.location)), p.message.clone(), replay);
@@ -379,7 +379,7 @@ fn checksum_pairs_v<V: Fv>(ctx: &Ctx, nkeys: usize, npairs: usize, rep: &mut Rep
                     if &re != *x || !f_ok || !cf_ok {
                         rep.violation(
                             "sk:decode-depends-on-previous-decode",
-                            format!("{}: decoding a valid key right after a different key with the same length and byte sum (step {} of the sequence A,B,A,B,B,A) returns a key that {}", V::NAME, step, if &re != *x { "re-encodes differently" } else { "has a different basis" }),
+                            format!("{}: decoding a valid key right after a different key with the same length and the same {} (step {} of the sequence A,B,A,B,B,A) returns a key that {}", V::NAME, fname, step, if &re != *x { "re-encodes differently" } else { "has a different basis" }),
                             replay,
                         );
                         bad = true;
@@ -391,10 +391,8 @@ fn checksum_pairs_v<V: Fv>(ctx: &Ctx, nkeys: usize, npairs: usize, rep: &mut Rep
             }
         }
         rep.count("checksum_colliding_pairs_decoded_in_sequence", 1);
-        if score >= 2 {
-            rep.count("pairs_colliding_in_sum_and_xor", 1);
-        }
-        if score % 2 == 1 {
+        rep.count(&format!("collide_sk_{}", fname), 1);
+        if i % bases.len() != j % bases.len() {
             rep.count("pairs_from_different_base_keys", 1);
         }
         rep.nontrivial(format!("cks|{}|{}|{}", V::NAME, crate::util::hash64(a), crate::util::hash64(b)).as_bytes());
